@@ -121,6 +121,7 @@ func writeEvidence(prop, tier string, seed int, wall float64, byFn map[string]*m
 			"samples":                       samples,
 			"evaluations":                   evals,
 			"distinct_nontrivial":           nontriv,
+			"transitions_rule":              "transitions = branch decisions taken along the explored paths: symbolic branches decided by the solver plus nondeterministic choice points (harness Choose, injected faults, thread scheduling)",
 			"rule":                          "a case is one feasible path of a harness through the real SSA (distinct decision sequence at symbolic branches); non-trivial = completed and reached at least one assertion; every assertion on it is discharged for ALL values of the symbolic inputs on that path by an unsat answer",
 			"obligations":                   obl,
 			"discharged":                    dis,
